@@ -18,6 +18,7 @@ import (
 )
 
 type c23sCase struct {
+	Kind     string   `json:"kind"` // "sql"
 	Allow    []string `json:"allow"`
 	Deny     []string `json:"deny"`
 	AddAllow []string `json:"add_allow,omitempty"` // edit: these are inserted into Allow at AddPos
@@ -195,6 +196,7 @@ func TestVerifC23Sql(t *testing.T) {
 	rep := vNewReport("C23", "SQL-proxy ACL: generated Allow (0-4) / Deny (0-3) pattern lists over 18 patterns (exact, p*, *, empty, blank, whitespace/case variants, ?, [..] classes, malformed '[x', escaped star, double star) x all 9 topics (incl. '*', '', 'a/b', '[x') + AllowShowTopics, plus one generated edit (insert 1-2 allow or deny patterns at any position); non-trivial = at least two different clauses decide topics of the case; distinct = distinct canonical JSON")
 	var coq, jsons []string
 	runOne := func(c c23sCase) {
+		c.Kind = "sql"
 		res := c23sRun(c)
 		canon, _ := json.Marshal(c)
 		clauses := 0
@@ -249,7 +251,9 @@ func TestVerifC23Sql(t *testing.T) {
 		if err := json.Unmarshal(rc, &c); err != nil {
 			t.Fatalf("bad replay: %v", err)
 		}
-		runOne(c)
+		if c.Kind == "sql" {
+			runOne(c)
+		}
 	} else {
 		corpus := []c23sCase{
 			{Allow: []string{"orders"}, Deny: []string{"orders"}},
